@@ -36,7 +36,14 @@ RULE = ("type-directed random formulas and terms of every sort (Bool/Int/Real/BV
         "predicate application over the bound variables + that application + formulas sharing it; atoms in which "
         "a sort occurs only on a constant; declared sorts named Int/Bool/Real/String next to the built-in sort; "
         "random formulas with their sub-terms) queried 2n+3 times in random order over fv / types / "
-        "types(custom_only) / atoms / qf / size, every answer compared with the structural definition.")
+        "types(custom_only) / atoms / qf / size, every answer compared with the structural definition. "
+        "Extreme but legal inputs (S ONLY: the Lean driver never sees them; expected values from the iterative "
+        "structural definitions in this file; an exception of an oracle is a violation): one formula of ~80 000 "
+        "distinct nodes and depth 40 000 (thorough 240 000 / 120 000), Boolean structure with re-binding "
+        "quantifiers nested 3 500 levels (12 000), sorts nested 1 500 levels (3 000) -- arrays and instances of a "
+        "declared unary sort, on free symbols, a bound variable, a function signature --, and a session of 7 500 "
+        "(40 000) formulas with ten new nodes each on ONE environment sharing the oldest symbols and old atoms; "
+        "every oracle (fv, atoms, qf, types in both modes, six sizes) on each.")
 ASSUMPTIONS = [
     "a bare function-typed symbol used as a term (Symbol('f', FunctionType(..)) itself) is outside the Lean model "
     "(Core typeOf gives it no sort, so no theorem speaks about it); the real oracles are still checked on such "
@@ -154,8 +161,20 @@ def make_universe(env):
 
 
 # ------------------------------------------------------------------------------------------ DAG helpers
+_DAG_LAST = [None, None]
+
+
 def dag_nodes(f):
-    """distinct nodes, children before parents"""
+    """distinct nodes, children before parents (iterative; the last result is cached: the structural
+    definitions below traverse the same -- possibly huge -- formula several times)"""
+    if _DAG_LAST[0] is f:
+        return _DAG_LAST[1]
+    out = _dag_nodes(f)
+    _DAG_LAST[0], _DAG_LAST[1] = f, out
+    return out
+
+
+def _dag_nodes(f):
     seen, out, stack = set(), [], [(f, False)]
     while stack:
         n, done = stack.pop()
@@ -244,25 +263,57 @@ def type_args(t):
     return []
 
 
+_TK_MEMO = {}      # id(sort) -> (sort, key)    (the sort object is kept so that the id stays valid)
+_TK_INTERN = {}    # structural description -> small integer
+
+
 def tkey(t):
     """structural identity of a sort, independent of PySMTType.__eq__/__hash__: the built-in sorts are
     recognised by their class predicates, a declared sort by (name, arity, argument keys) -- so the declared
-    sort |Int| and the built-in Int have different keys"""
-    if t.is_function_type():
-        return ("fun", tkey(t.return_type), tuple(tkey(p) for p in t.param_types))
-    if t.is_array_type():
-        return ("array", tkey(t.index_type), tkey(t.elem_type))
-    if t.is_bv_type():
-        return ("bv", t.width)
-    if t.is_bool_type():
-        return ("bool",)
-    if t.is_int_type():
-        return ("int",)
-    if t.is_real_type():
-        return ("real",)
-    if t.is_string_type():
-        return ("string",)
-    return ("decl", t.basename, t.arity, tuple(tkey(a) for a in (t.args or ())))
+    sort |Int| and the built-in Int have different keys. Iterative (sorts nested thousands of levels deep),
+    keys are interned small integers."""
+    stack = [t]
+    while stack:
+        u = stack[-1]
+        h = _TK_MEMO.get(id(u))
+        if h is not None and h[0] is u:
+            stack.pop()
+            continue
+        kids = type_args(u)
+        pending = [k for k in kids if not (id(k) in _TK_MEMO and _TK_MEMO[id(k)][0] is k)]
+        if pending:
+            stack.extend(pending)
+            continue
+        ck = tuple(_TK_MEMO[id(k)][1] for k in kids)
+        if u.is_function_type():
+            raw = ("fun", ck)
+        elif u.is_array_type():
+            raw = ("array", ck)
+        elif u.is_bv_type():
+            raw = ("bv", u.width)
+        elif u.is_bool_type():
+            raw = ("bool",)
+        elif u.is_int_type():
+            raw = ("int",)
+        elif u.is_real_type():
+            raw = ("real",)
+        elif u.is_string_type():
+            raw = ("string",)
+        else:
+            raw = ("decl", u.basename, u.arity, ck)
+        _TK_MEMO[id(u)] = (u, _TK_INTERN.setdefault(raw, len(_TK_INTERN)))
+        stack.pop()
+    return _TK_MEMO[id(t)][1]
+
+
+def short(t, n=70):
+    s_ = str(t)
+    return s_ if len(s_) <= n else s_[:n] + "...(%d chars)" % len(s_)
+
+
+def shorts(ts, k=12):
+    ts = list(ts)
+    return "[" + ", ".join(short(t) for t in ts[:k]) + (", ... %d more" % (len(ts) - k) if len(ts) > k else "") + "]"
 
 
 def is_declared(t):
@@ -320,19 +371,23 @@ def types_problems(f, get_type, tys, custom_only=False):
         dt = {k: t for k, t in dt.items() if is_declared(t)}
     keys = [tkey(t) for t in tys]
     if set(keys) != set(dt):
-        missing = sorted(str(dt[k]) + ("" if not is_declared(dt[k]) else " (declared)") for k in set(dt) - set(keys))
+        missing = sorted(short(dt[k]) + ("" if not is_declared(dt[k]) else " (declared)")
+                         for k in set(dt) - set(keys))
         out.append(("structural", "missing" if missing else "extra",
                     "types reported %s%s, definition gives %s%s" % (
-                        list(map(str, tys)), " (custom_only)" if custom_only else "",
-                        sorted(str(t) + (" (declared)" if is_declared(t) else "") for t in dt.values()),
-                        (", missing " + ", ".join(missing)) if missing else "")))
+                        shorts(tys), " (custom_only)" if custom_only else "",
+                        shorts(sorted(short(t) + (" (declared)" if is_declared(t) else "") for t in dt.values())),
+                        (", missing " + ", ".join(missing[:6])) if missing else "")))
     if len(set(keys)) != len(keys):
-        out.append(("duplicates", None, "get_types returned duplicates: %s" % list(map(str, tys))))
+        out.append(("duplicates", None, "get_types returned duplicates: %s" % shorts(tys)))
+    pos = {}
+    for i, k in enumerate(keys):
+        pos.setdefault(k, i)
     for i, t in enumerate(tys):
-        bad = [a for a in type_args(t) if tkey(a) not in keys[:i]]
+        bad = [a for a in type_args(t) if pos.get(tkey(a), len(keys)) >= i]
         if bad and not custom_only:
             out.append(("order", None, "get_types lists %s before its sub-sort %s: %s" % (
-                t, bad[0], list(map(str, tys)))))
+                short(t), short(bad[0]), shorts(tys))))
             break
     return out
 
@@ -972,6 +1027,192 @@ def check_histories(ctx, n):
                       "formulas": [semantic.readable(f, 160) for f in formulas]})
 
 
+# ------------------------------------------------------------------------------------------ extreme but legal inputs
+def no_type(n):
+    raise AssertionError("the type of a %s node is not expected to be needed here" % wire.OPNAMES[n.node_type()])
+
+
+def check_all_oracles(ctx, env, f, label, rep, is_bool, get_type=no_type, measures=MEASURES):
+    """every oracle on `f` against the iterative structural definitions; an exception of the oracle on a
+    legal formula is a violation. S only (the Lean driver never sees these inputs). -> number of failures"""
+    shape = rep["extreme"]["kind"]
+    fails = [0]
+
+    def bad(oracle, what, **kw):
+        fails[0] += 1
+        r = rep
+        if "formula" not in r and len(dag_nodes(f)) < 400:
+            r = dict(rep, formula=semantic.readable(f, 600))
+        report_s(ctx, dict({"check": "extreme", "shape": shape, "oracle": oracle}, **kw),
+                 "%s: %s" % (label, what), r)
+
+    def call(oracle, fn, **kw):
+        try:
+            return True, fn()
+        except Exception as e:       # KeyError, RecursionError, ... on a legal input
+            bad(oracle, "%s raised %s" % (oracle, repr(e)[:160]), error=type(e).__name__, **kw)
+            return False, None
+
+    ok, got = call("fv", lambda: f.get_free_variables())
+    if ok:
+        want = d_fv(f)
+        if set(got) != want:
+            bad("fv", "free symbols reported %s, definition gives %s" % (
+                shorts(sorted(map(str, got))), shorts(sorted(map(str, want)))),
+                kind="missing" if want - set(got) else "extra")
+    ok, got = call("atoms", lambda: impl_atoms(env, f))
+    if ok:
+        akind, atoms = got
+        if is_bool:
+            want = d_atoms(f, get_type)
+            if akind != "atoms" or atoms != want:
+                bad("atoms", "atoms walk gave %s with %s atoms, definition gives %d atoms" % (
+                    akind, "no" if atoms is None else len(atoms), len(want)))
+        elif akind != "theory":
+            bad("atoms", "atoms walk of a non-Boolean term gave %s" % akind)
+    ok, got = call("qf", lambda: env.qfo.is_qf(f))
+    if ok and got != d_qf(f):
+        bad("qf", "is_qf = %r" % got)
+    for co in (False, True):
+        ok, got = call("types", lambda: env.typeso.get_types(f, custom_only=co), custom_only=str(co))
+        if ok:
+            for chk, knd, msg in types_problems(f, get_type, got, co):
+                bad("types", msg, sub=chk, custom_only=str(co))
+    for m in measures:
+        ok, got = call("size", lambda: f.size(m), measure=MEASURE_NAMES[m])
+        if ok:
+            want = d_size(f, m, get_type)
+            if got != want:
+                bad("size", "size(%s) = %d, definition gives %d" % (MEASURE_NAMES[m], got, want),
+                    measure=MEASURE_NAMES[m])
+    ctx.count("extreme_oracle_runs")
+    return fails[0]
+
+
+def extreme_chain(ctx, n):
+    """one formula with ~2n distinct nodes and depth n+2: ((..((x+0)+1)..+(n-1)) < x) & p"""
+    env = Environment()
+    m = env.formula_manager
+    x, pb = m.Symbol("x", INT), m.Symbol("p", BOOL)
+    acc = x
+    for i in range(n):
+        acc = m.Plus(acc, m.Int(i))
+    f = m.And(m.LT(acc, x), pb)
+    rep = {"extreme": {"kind": "chain", "n": n}, "formula": "((..((x+0)+1)..+%d) < x) & p" % (n - 1)}
+    ctx.case("extreme chain %d" % n)
+    ctx.count("extreme_nodes", len(dag_nodes(f)))
+    # the set-valued measures keep one frozenset of all descendants per node, also below a relation (quadratic
+    # in the depth of a chain): DAG_NODES and BOOL_DAG are left to the shallower inputs
+    check_all_oracles(ctx, env, f, "arithmetic chain of %d additions (%d nodes)" % (n, len(dag_nodes(f))), rep, True,
+                      measures=[0, 2, 3, 4])
+    check_all_oracles(ctx, env, acc, "the chain term itself (%d nodes)" % len(dag_nodes(acc)), rep, False,
+                      measures=[0, 2, 3, 4])
+
+
+def extreme_boolchain(ctx, depth):
+    """Boolean structure nested `depth` levels, connectives and binders (re-binding x and z) alternating"""
+    env = Environment()
+    m = env.formula_manager
+    x, y, z = m.Symbol("x", INT), m.Symbol("y", INT), m.Symbol("z", INT)
+    pb = m.Symbol("p", BOOL)
+    acc = m.LT(x, y)
+    for k in range(depth):
+        a = m.LT(m.Plus(x, m.Int(k % 11)), z) if k % 3 else m.Equals(z, m.Int(k))
+        r = k % 7
+        if r == 0:
+            acc = m.And(acc, a)
+        elif r == 1:
+            acc = m.Or(a, acc, pb)
+        elif r == 2:
+            acc = m.Implies(a, acc)
+        elif r == 3:
+            acc = m.Not(acc)
+        elif r == 4:
+            acc = m.ForAll([x] if k % 2 else [z, x], acc)
+        elif r == 5:
+            acc = m.Iff(acc, a)
+        else:
+            acc = m.Exists([z], m.And(a, acc))
+    rep = {"extreme": {"kind": "boolchain", "n": depth},
+           "formula": "connectives and binders nested %d levels over x<y, x+c<z, z=c, p" % depth}
+    ctx.case("extreme boolchain %d" % depth)
+    check_all_oracles(ctx, env, acc, "Boolean structure nested %d levels" % depth, rep, True,
+                      measures=MEASURES if depth <= 1000 else [0, 2, 3, 4])
+
+
+def extreme_sorts(ctx, depth):
+    """sorts nested `depth` levels (arrays; instances of a declared unary sort) on a free symbol, a bound
+    variable and a function signature"""
+    env = Environment()
+    m, tm = env.formula_manager, env.type_manager
+    arr = INT
+    for _ in range(depth):
+        arr = tm.ArrayType(INT, arr)
+    N1 = tm.Type("Nest", 1)
+    u = tm.Type("S0", 0)
+    for _ in range(depth):
+        u = tm.get_type_instance(N1, u)
+    rep = {"extreme": {"kind": "sorts", "n": depth}}
+    for nm, T in (("array", arr), ("declared", u)):
+        a1, a2, bv_ = m.Symbol("a1" + nm, T), m.Symbol("a2" + nm, T), m.Symbol("bv" + nm, T)
+        g = m.Symbol("g" + nm, FunctionType(BOOL, [T, INT]))
+        h = m.Symbol("h" + nm, FunctionType(T, [INT]))
+        gt = lambda n: BOOL
+        cases = [("free symbols", m.Equals(a1, a2)),
+                 ("bound variable", m.ForAll([bv_], m.Function(g, [bv_, m.Int(0)]))),
+                 ("function signature", m.Function(g, [m.Function(h, [m.Int(1)]), m.Int(2)]))]
+        for what, f in cases:
+            ctx.case("extreme sorts %s %s %d" % (nm, what, depth))
+            r = dict(rep, formula="%s sort nested %d levels: %s" % (nm, depth, what))
+            check_all_oracles(ctx, env, f, "%s sort nested %d levels (%s)" % (nm, depth, what), r, True,
+                              get_type=gt)
+
+
+def extreme_session(ctx, n):
+    """a long session on ONE environment: n small formulas, ten new nodes each, all sharing the oldest
+    symbols and an atom of an earlier formula; every oracle after every formula"""
+    env = Environment()
+    m = env.formula_manager
+    x, y, u, v = (m.Symbol(k, INT) for k in "xyuv")
+    pb = m.Symbol("p", BOOL)
+    old = [m.LT(x, y)]
+    rep = {"extreme": {"kind": "session", "n": n}}
+    failures = 0
+    for i in range(n):
+        a1 = m.LT(m.Plus(u, m.Int(i)), m.Times(m.Int(i), v))
+        a2 = m.Equals(m.Plus(x, m.Int(i)), m.Int(-i - 1))
+        a3 = m.Or(pb, m.LE(m.Int(i), u))
+        f = m.And(old[0], old[i // 2], a1, a2, a3)
+        old.append(a1)
+        r = dict(rep, step=i)
+        failures += check_all_oracles(ctx, env, f, "formula %d of the session" % i, r, True,
+                                      measures=MEASURES if i % 8 == 0 else sorted({1, i % 6}))
+        if failures >= 3:
+            break
+    ctx.case("extreme session %d" % n)
+    ctx.count("extreme_session_formulas", i + 1)
+
+
+def check_extreme(ctx, quick, only=None):
+    plan = [("chain", 40000 if quick else 120000), ("boolchain", 3500 if quick else 12000), ("boolchain", 800),
+            ("sorts", 1500 if quick else 3000), ("session", 7500 if quick else 40000)]
+    fns = {"chain": extreme_chain, "boolchain": extreme_boolchain, "sorts": extreme_sorts,
+           "session": extreme_session}
+    for kind, n in plan:
+        if only is not None:
+            if only[0] != kind:
+                continue
+            n = only[1]
+        elif ctx.time_left() < (60 if quick else 200):
+            ctx.count("extreme_skipped_" + kind)
+            continue
+        t0 = __import__("time").time()
+        if only is not None and ctx.extra.get("extreme_%s_s" % kind) is not None:
+            continue
+        fns[kind](ctx, n)
+        ctx.extra["extreme_%s_s" % kind] = round(__import__("time").time() - t0, 2)
+
+
 # ------------------------------------------------------------------------------------------ entry points
 def run(ctx):
     warnings.filterwarnings("ignore")
@@ -982,6 +1223,7 @@ def run(ctx):
     check_tables(ctx)
     check_expand(ctx, env, uni, 150 if quick else 3000)
     check_histories(ctx, 250 if quick else 5000)
+    check_extreme(ctx, quick)
     batch = 1200 if quick else 3000
     done = 0
     while done < n:
@@ -1004,6 +1246,15 @@ def replay(ctx, rep):
     r = rep["replay"]
     env = Environment()
     uni = make_universe(env)
+    if "extreme" in r:
+        e = r["extreme"]
+        print("extreme input: %s, n = %d (regenerated deterministically on a fresh environment)" % (e["kind"], e["n"]))
+        check_extreme(ctx, True, only=(e["kind"], e["n"]))
+        if not ctx.s_violations:
+            print("replay: the case does not fail on this tree")
+        for v in ctx.s_violations[:8]:
+            print("S:", v["what"])
+        return
     if "history" in r:
         h = r["history"]
         formulas = [build_fnode(env, wire.dec_term(t)) for t in h["terms"]]
